@@ -2,8 +2,9 @@ SPEC = {
     "claimed": True,
     "gen": [],
     "theorems": ['C02_calls_return6', 'C02_calls_return7', 'C02_resend_terminates', 'C02_deadline_finite6', 'C02_deadline_finite7', 'C02_catch_up', 'C02_catch_up_reachable6', 'C02_nonvacuous',
-                 'C02_heal_schedule6', 'C02_heal6', 'C02_tokens_agree6', 'C02_heal_reachable6', 'C02_heal_nonvacuous', 'C02_heal_demo_run'],
-    "props_files": ["C02", "C02heal"],
+                 'C02_heal_schedule6', 'C02_heal6', 'C02_tokens_agree6', 'C02_heal_reachable6', 'C02_heal_nonvacuous', 'C02_heal_demo_run',
+                 'C02_heal_schedule7', 'C02_heal7', 'C02_tokens_agree7', 'C02_heal_reachable7', 'C02_heal_nonvacuous7', 'C02_heal_demo_run7'],
+    "props_files": ["C02", "C02heal", "C02heal7"],
     "allowed_axioms": [],
     "extract": {
         "LibTw2.Model.Conn6": ["step", "needs_tick", "conn6_new"],
@@ -14,5 +15,5 @@ SPEC = {
     "trusted_base": ["Model/ConnCore.v, Conn6.v, Conn7.v are hand-written from net/src/connection.rs / connection7.rs; datagrams are abstract packet values with structured chunks, their encoded size is tracked in the model; the byte level is Props/C05-C06",
                      "the correspondence feeds the model the packet value the REAL reader returns for each datagram and compares every emitted datagram (parsed by the real reader), event, warning, result, needs_tick and the complete state fingerprint (hook Connection::verif_fingerprint) after every label"],
     "assumptions": ["the send callback never fails (Error = Infallible)", "secure_random eventually yields a usable token (otherwise Token::random itself loops: rand_ok hypothesis)", "clock values stay below 2^63 microseconds", "mid-handshake = Connecting/Pending (0.6), Token/Connecting/Pending (0.7); the passive 0.7 PendingConnect state has nothing to retransmit and reports no deadline", "the real call not returning is observed only by the harness watchdog (8 s): partial by nature"],
-    "explanation": 'every call returns (no OutOfFuel/Panic outcome from any reachable state, explicit resend fuel bound) and the reported deadline is finite while active, for ALL histories by induction over the label list; progress (0.6, Props/C02heal.v): from EVERY reachable link state with both ends online there is an explicit healing schedule (lose what is in flight, then each side ticks at its deadline and every datagram is delivered exactly once, oldest first) with exactly 3 ticks after which everything submitted is delivered, both queues and packets are empty, no resend is requested and nothing is in flight (C02_heal_reachable6); the handshake phase and 0.7 progress, and progress under every fair schedule rather than this one, are checked by the harness oracle on fair suffixes',
+    "explanation": 'every call returns (no OutOfFuel/Panic outcome from any reachable state, explicit resend fuel bound) and the reported deadline is finite while active, for ALL histories by induction over the label list; progress (0.6: Props/C02heal.v, 0.7: Props/C02heal7.v, same statements): from EVERY reachable link state with both ends online there is an explicit healing schedule (lose what is in flight, then each side ticks at its deadline and every datagram is delivered exactly once, oldest first) with exactly 3 ticks after which everything submitted is delivered, both queues and packets are empty, no resend is requested and nothing is in flight (C02_heal_reachable6, C02_heal_reachable7); the handshake phase, and progress under every fair schedule rather than this one, are checked by the harness oracle on fair suffixes',
 }
